@@ -43,5 +43,12 @@ def corpus(prop):
     out = []
     if os.path.isdir(d):
         for f in sorted(os.listdir(d)):
-            out.append("".join(l for l in open(os.path.join(d, f)) if not l.startswith("#")))
+            if not os.path.isfile(os.path.join(d, f)):
+                continue
+            prog = "".join(l for l in open(os.path.join(d, f)) if not l.startswith("#"))
+            # witnesses that need real 64 MB traffic, threads or the shim are replayed by the property's scenario code,
+            # not by the sequential differential runner (the model has no such operations)
+            if any(w in prog for w in ("bigfill", "thread ", "pausepoint", "arm\n")):
+                continue
+            out.append(prog)
     return out
